@@ -1725,3 +1725,13 @@ _K3KER = ("K3: the scalar arithmetic kernels (internal_clipper.go triSign, multi
           "modelled as float64(a)/2 and compared with the code on every generated input)")
 for _pid in ('C08', 'C13', 'C14', 'C15', 'C16'):
     PROPS[_pid]['trust'] = list(PROPS[_pid]['trust']) + [_K3KER]
+
+_K3KER2 = ("K3 (second batch): core.go Rect64.IsEmpty / MidPoint / Contains / Intersects / NewRect64, Point64.Equals; engine.go pointsEqual, ptsReallyClose (generics.go absInt inlined "
+           "from its own body), IsOdd, areaTriangle, topX (the scalar leaves it reads through its *Active become parameters named by their field path); rect_clip.go hasVertOverlap, "
+           "hasHorzOverlap, isHorizontalPoint, getSegmentIntersection are translated on every run (harness/kernels2.go, same typed translator: Go's integer / and % as truncating "
+           "Z.quot / Z.rem under wrap64, max/min as Z.max/Z.min, & on int as Z.land, math.Round as exact round-half-away, struct == field by field, methods with a pointer receiver "
+           "that only read it as functions of the receiver's fields) into Gen/Kernels2_gen.v and proved against their specifications in Model/Kernel2Proofs.v (Contains = every point "
+           "of the argument is inside, Intersects = the closed rectangles share a point, getSegmentIntersection's reported point lies on both closed segments unless the segments cross "
+           "properly, topX is exactly the vertex at both ends of an edge and on vertical edges); the rounding error of topX strictly inside an edge is NOT bounded by a theorem")
+for _pid in ('C01', 'C02', 'C06', 'C11'):
+    PROPS[_pid]['trust'] = list(PROPS[_pid]['trust']) + [_K3KER2]
